@@ -7,6 +7,22 @@ import numpy as np
 CAUSES = {1: RuntimeWarning, 2: IndexError, 10: ZeroDivisionError, 11: KeyError, 12: RuntimeError, 13: ValueError, 14: FloatingPointError}
 CAUSE_TAG = {v.__name__: k for k, v in CAUSES.items()}
 CAUSE_TAG['UserWarning'] = 1          # the model has one tag for 'the warning raised by the filter', whatever its category
+# fsic's OWN exception classes (and a subclass of each) raised from inside a hook / _evaluate, e.g. by an inner model solved within the
+# equations: they too must surface as a NEW SolutionError chained to them
+FSIC_CAUSES = {20: 'SolutionError', 21: 'NonConvergenceError', 22: 'InnerSolutionError', 23: 'InnerNonConvergenceError'}
+CAUSE_TAG.update({v: k for k, v in FSIC_CAUSES.items()})
+_FSIC_CLASSES = {}
+
+
+def cause_class(tag):
+    if tag in CAUSES:
+        return CAUSES[tag]
+    if not _FSIC_CLASSES:
+        import fsic.exceptions as fe
+        _FSIC_CLASSES.update({20: fe.SolutionError, 21: fe.NonConvergenceError,
+                              22: type('InnerSolutionError', (fe.SolutionError,), {}),
+                              23: type('InnerNonConvergenceError', (fe.NonConvergenceError,), {})})
+    return _FSIC_CLASSES[tag]
 
 
 def unhex(s):
@@ -45,7 +61,7 @@ def run_actions(model, t, acts, kw=None):
             model.__dict__.setdefault('_warn_stored', []).append([a[1], int(t), category.__name__])
             model.__dict__['_V%d' % a[1]][t] = unhex(a[2])
         elif k == 'raise':
-            raise CAUSES[a[1]]('scripted')
+            raise cause_class(a[1])('scripted')
         elif k == 'setat':
             model.__dict__['_V%d' % a[1]][a[2]] = unhex(a[3])
         elif k == 'affine':
@@ -82,6 +98,7 @@ def make_class(base, nvars, check, endo, extra=()):
                     run_actions(self, t, sc.get('before', []), kwargs)
             except Exception as e:
                 self.__dict__['_raised'].append(['before', int(t), 0, type(e).__name__])
+                self.__dict__['_last_exc'] = e
                 raise
 
         def _evaluate(self, t, *, errors='raise', catch_first_error=True, iteration=None, **kwargs):
@@ -95,6 +112,7 @@ def make_class(base, nvars, check, endo, extra=()):
                         run_actions(self, t, passes[iteration - 1], kwargs)
             except Exception as e:
                 self.__dict__['_raised'].append(['pass', int(t), int(iteration), type(e).__name__])
+                self.__dict__['_last_exc'] = e
                 raise
             finally:
                 self.__dict__['_passvecs'].append([float(self.__dict__['_' + n][t]) for n in self.check])
@@ -108,6 +126,7 @@ def make_class(base, nvars, check, endo, extra=()):
                     run_actions(self, t, sc.get('after', []), kwargs)
             except Exception as e:
                 self.__dict__['_raised'].append(['after', int(t), int(iteration), type(e).__name__])
+                self.__dict__['_last_exc'] = e
                 raise
 
     return Scripted
